@@ -60,9 +60,27 @@ def _check_fit(case):
     from formulas.ranges import Ranges, _reshape_array_as_excel
     from formulas.functions import Array
     kind, vshape, dshape = case
+    ref = 'A1:%s%d' % ('ABCD'[dshape[1] - 1], dshape[0])
+    if kind.startswith('scalar:'):
+        # a result without axes: a formula made of scalars only (its last operator / function returns a 0-d Array) fills the range
+        import formulas
+        text, v = {'scalar:operator': ('=1+2', 3.0), 'scalar:function': ('=ABS(-3)', 3.0), 'scalar:text': ('="a"&"b"', 'ab'),
+                   'scalar:logical': ('=2>1', True), 'scalar:0d-array': (None, 7)}[kind]
+        want = [[v] * dshape[1] for _ in range(dshape[0])]
+        try:
+            if text is None:
+                got = Ranges().push(ref, np.asarray(7, object).view(Array)).value
+            else:
+                cell = formulas.cell.Cell(ref, text).compile()
+                dsp = sh.Dispatcher()
+                cell.add(dsp)
+                got = dsp({})[cell.output].value
+        except Exception as ex:
+            return '%s into %dx%d raised %s: %s' % (kind, dshape[0], dshape[1], type(ex).__name__, str(ex)[:80])
+        return None if _same_grid(got, want) else '%s (%s) stored into %dx%d gives %s, expected %s everywhere' % (
+            kind, text, dshape[0], dshape[1], np.asarray(got, object).tolist(), v)
     value = _mk(vshape)
     want = spec_fit(value.tolist(), dshape)
-    ref = 'A1:%s%d' % ('ABCD'[dshape[1] - 1], dshape[0])
     try:
         if kind == 'reshape_array_as_excel':
             got = _reshape_array_as_excel(value.copy(), dshape)
@@ -92,11 +110,14 @@ def _fit_cases(tier, rng):
     out = [(k, v, d) for k in kinds for v in SHAPES for d in SHAPES]
     # a plain array pushed as an input is fitted like a result as long as nothing has to be dropped
     out += [('Ranges.set_value(array)', v, d) for v in SHAPES for d in SHAPES if v[0] <= d[0] and v[1] <= d[1]]
+    out += [(k, (), d) for k in ('scalar:operator', 'scalar:function', 'scalar:text', 'scalar:logical', 'scalar:0d-array') for d in SHAPES]
     return out
 
 
 def _classify_fit(case, detail):
     kind, v, d = case
+    if not v:
+        return None
     # np.reshape succeeds silently when the element counts agree (e.g. 1x4 into 2x2, 2x3 into 3x2): not Excel's fitting
     if v != d and v[0] * v[1] == d[0] * d[1]:
         return 'KF-C05-1'
